@@ -4,7 +4,8 @@ Search:  brute-force enumeration of all simple paths (exact integer lengths, Fra
          plus the identities of the property evaluated on the real outputs alone.
 Corr:    Lean model `Between` — definition-level spec (dist / sigma / bcSpec / ebcSpec, exact rationals, compared
          *exactly* with the brute-force oracle) and the algorithm-level models mirroring centrality.py
-         (compared with the real routines' floats at 1e-9 and, exactly, with the spec model).
+         (compared with the real routines' floats at 1e-9 and, exactly, with the spec model; Props/C08.lean proves
+         the algorithm-level models equal to the spec, so this tie is what binds the theorems to /repo).
 """
 import sys
 from fractions import Fraction as Fr
@@ -309,9 +310,6 @@ def run_chunk(arg):
                 if fe in outs and fn in outs and outs[fe][0] == 'ok' and outs[fn][0] == 'ok':
                     if not vec_close(outs[fe][2], outs[fn][2]):
                         R['viol'].append((fe, 'edge-node-vector', {'L': L, 'edge_routine_BC': outs[fe][2], 'node_routine_BC': outs[fn][2]}, dict(cond0, routine=fe)))
-            if binary and all(f in outs and outs[f][0] == 'ok' for f in ROUT_BIN):
-                if not vec_close(outs['betweenness_bin'][2], outs['betweenness_wei'][2]):
-                    R['viol'].append(('betweenness_bin', 'bin-wei-agree', {'L': L, 'bin': outs['betweenness_bin'][2], 'wei': outs['betweenness_wei'][2]}, dict(cond0, routine='betweenness_bin')))
         else:
             dist = sig = BC = EBC = None
         if lean_ok:
@@ -319,18 +317,37 @@ def run_chunk(arg):
             if not mal:
                 lines.append('spec n=%d L=%s' % (n, ms)); meta.append(('spec', L, (dist, sig, BC, EBC), None))
             for f in routines:
-                if f in outs:
+                # betweenness_wei is the BC component of the very same model loop as edge_betweenness_wei: one driver line serves both
+                if f in outs and not (f == 'betweenness_wei' and 'edge_betweenness_wei' in outs):
                     lines.append('%s n=%d L=%s' % (f, n, ms)); meta.append((f, L, (dist, sig, BC, EBC), outs[f]))
+                    if f == 'edge_betweenness_wei' and 'betweenness_wei' in outs:
+                        meta[-1] = (f, L, (dist, sig, BC, EBC), outs[f], outs['betweenness_wei'])
     if lean_ok and lines:
         try:
             res = run_driver('Between', lines)
         except DriverError as e:
             R['breaks'].append(('Between driver', str(e)))
             return R
-        for (op, L, orc, py), o in zip(meta, res):
+        for mt, o in zip(meta, res):
+            op, L, orc, py = mt[:4]
             n = len(L)
             R['corr'] += 1
             bad = None
+            if len(mt) == 5:   # the node routine betweenness_wei against the same model line
+                R['corr'] += 1
+                pw = mt[4]
+                try:
+                    kw = kv(o)
+                    if pw[0] == 'exc':
+                        okw = kw.get('error') == exc_kind(pw[1])
+                    else:
+                        okw = 'error' not in kw and vec_close(pw[2], fr_list(kw['bc']))
+                except Exception:
+                    okw = False
+                if not okw:
+                    R['corr_bad'] += 1
+                    if len(R['breaks']) < 3:
+                        R['breaks'].append(('model vs bct.betweenness_wei', {'L': L, 'model': o[:300], 'impl': pw[1] if pw[0] == 'exc' else pw[2]}))
             kvs = kv(o)
             try:
                 if op == 'spec':
@@ -357,7 +374,7 @@ def run_chunk(arg):
                         if not okc:
                             bad = ('model vs bct.%s' % op, {'L': L, 'model': o[:300], 'impl_bc': py[2], 'impl_ebc': py[1]})
                         elif orc[2] is not None:
-                            # algorithm-level model = definition-level spec, exactly (brandes_correct is tied here, not proved)
+                            # algorithm-level model = definition-level spec, exactly (also proved: brandes_wei_correct, edge_betweenness_bin_correct, betweennessBin_correct)
                             if mbc != orc[2] or (py[1] is not None and fr_list(kvs['ebc']) != [x for r in orc[3] for x in r]):
                                 bad = ('algorithm model %s vs definition (exact rationals)' % op, {'L': L, 'model': o[:300]})
             except Exception as e:  # malformed driver output is a break, never agreement
@@ -376,7 +393,7 @@ PROTO_BAD = ['spec n=3 L=0,1,0', 'betweenness_wei n=2 L=0,1,-1,0', 'spec n=x L=0
 def main():
     ck = Check(PID)
     ck.cov['rule'] = ('cases = connection(-length) matrices with empty diagonal: exhaustive labelled digraphs n<=4 / undirected graphs n<=5, binary and '
-                      'with lengths in {1,2} (thorough: all of them; quick: all for n<=3 directed / n<=4 undirected plus a seeded random slice), '
+                      'with lengths in {1,2} (thorough: all of them; quick: all binary ones, all {1,2}-weighted ones for n<=3 directed / n<=4 undirected plus a seeded random slice of the rest), '
                       'structured tie-rich graphs (paths, cycles, stars, grids, cube, complete bipartite, diamond chains), random n=5..9 graphs '
                       '(lengths 1..3, densities .12-.85, isolated nodes / two components / sources and sinks forced in half of them); every case is run '
                       'through all applicable routines. non-trivial = distinct matrix on which some node has non-zero betweenness '
@@ -405,9 +422,9 @@ def main():
             cases += enum_cases(n, True, 2) + enum_cases(n, True, 3)
         for n in (2, 3, 4):
             cases += enum_cases(n, False, 2) + enum_cases(n, False, 3)
-        cases += enum_cases(4, True, 2, rs, 700) + enum_cases(4, True, 3, rs, 1500)
-        cases += enum_cases(5, False, 2, rs, 300) + enum_cases(5, False, 3, rs, 700)
-        cases += structured() + random_cases(rs, 500) + malformed_cases(rs, 60)
+        cases += enum_cases(4, True, 2) + enum_cases(4, True, 3, rs, 5000)
+        cases += enum_cases(5, False, 2) + enum_cases(5, False, 3, rs, 2500)
+        cases += structured() + random_cases(rs, 1000) + malformed_cases(rs, 100)
     csz = 400 if ck.tier == 'quick' else 2500
     chunks = [(i, cases[i:i + csz], ok) for i in range(0, len(cases), csz)]
     # interleave cheap and expensive chunks a little: sort is not needed, pool.map balances with chunksize 1
